@@ -12,6 +12,7 @@ from .c01 import text_variant
 
 SPEC = {
     "level": "exploration",
+    "level_text": 'Exploration: metamorphic post-condition on canonicalize_molecule comparing the labelled result (node -> element, mass, radical, class; edge set) with shadow results on harness relabellings, plus trace variants through V3000 text. Same reach argument as C01; it observes the canonical graph itself, which no string comparison can.',
     "suite_under_monitor": True,
     "technique": "metamorphic runtime contract (icontract ensure) on canonicalize_molecule: shadow relabelling, labelled-graph equality",
     "rule": ("cases as in C01 (M1 exhaustive n<=4/5 x 3 colours, M2, M3 partially labelled orbits, M4, M5, M6 corpus, CFI in thorough); every "
